@@ -252,7 +252,7 @@ def run(ck):
             "non-false return advanced (match_literal, match_raw, match_string, match_attribute).  Calls that only may consume "
             "(match_until, skip_whitespaces, Chunk::parse) do not count; they reset what is known about the byte under the cursor, "
             "which is otherwise tracked through comparisons with character constants, eof() tests and the post-condition of "
-            "match_until(set) == true", 16)
+            "match_until(set) == true", 10)
     STRICT_FUNCS = {
         H + "Private::RequestLineStep::apply", H + "Private::ResponseLineStep::apply", H + "Private::HeadersStep::apply",
         H + "Private::BodyStep::Chunk::parse", H + "Cookie::fromRaw", H + "CookieJar::addFromRaw", H + "Header::CacheControl::parseRaw",
@@ -283,7 +283,7 @@ def run(ck):
             back_kinds = {(f.blocks[b].term or {}).get("k") for b in body if (f.blocks[b].term or {}).get("k") == "do" and
                           len(f.blocks[b].succs) == 2 and f.blocks[b].succs[1] not in body}
             line = (hb.term or {}).get("l") or min([e.get("l") for b in body for e in f.blocks[b].elems if e.get("l")] or [0])
-            if f.base not in STRICT_FUNCS:
+            if prog.owner(f).base not in STRICT_FUNCS:
                 ck.note("C03-R8: loop at %s:%s is in a function that is not in the confirmed list: only the lenient rule R7 applies" % (f.file, line))
                 continue
             ex = R8_EXEMPT.get((f.base, "do")) if "do" in back_kinds else None
@@ -300,22 +300,25 @@ def run(ck):
     # a size taken from the message is checked for its sign before it is stored (a negative size turns into a huge unsigned count)
     cp = lib.single(prog, H + "Private::BodyStep::Chunk::parse")
     import re as _re
-    locals_ = {d["var"] for d in cp.events("decl")}
     stores = []
-    for a in cp.events("assign"):
-        if (a["lhs"].get("f") or "").endswith("Chunk::size") and a.get("const") is None:
-            ids = [x for x in _re.findall(r"[A-Za-z_]\w*", a["rhs"].get("t") or "") if x in locals_]
-            if ids:
-                stores.append((a, ids[-1]))
+    # the routine that stores the parsed size: Chunk::parse or a private helper of the same class it was split into
+    for g in lib.region(prog, cp, within=lambda g: g.cls and g.cls == cp.cls):
+        locals_ = {d["var"] for d in g.events("decl") if d.get("var")}
+        for a in g.events("assign"):
+            if (a["lhs"].get("f") or "").endswith("Chunk::size") and a.get("const") is None:
+                ids = [x for x in _re.findall(r"[A-Za-z_]\w*", a["rhs"].get("t") or "") if x in locals_]
+                if ids:
+                    stores.append((g, a, ids[-1]))
     ck.require(stores, "assignment of the parsed chunk size not found")
-    for a, v in stores:
-        dom = cfg.dominators(cp)
-        tests = [b for b in cp.blocks.values() if b.term and b.term.get("k") in ("if", "lor") and b.term.get("cmp") == "<" and (b.term.get("lhs") or {}).get("v") == v and b.term.get("rconst") == 0
-                 and b.id in dom.get(a.block, ())]
-        d_ = [x for x in cp.events("decl") if x.get("var") == v]
+    for g, a, v in stores:
+        # every way to the store has passed an edge on which `v < 0` is false (bail-out on negative), written either way round
+        nonneg = [(b.id, k) for b in g.blocks.values() if b.term and len(b.succs) == 2 for k in (0, 1) if b.succs[k] is not None
+                  and b.term.get("rconst") == 0 and lib.edge_establishes(b.term, k, v, (">=", ">"))]
+        guarded = any(cfg.edge_dominates(g, bid, k, a) for bid, k in nonneg)
+        d_ = [x for x in g.events("decl") if x.get("var") == v]
         signed = bool(d_) and (d_[0].get("icall") in ("strtol", "std::strtol", "strtoll", "std::strtoll"))
-        ck.ob("C03-R6", "Chunk::parse/size-sign-checked", bool(tests) and signed, a.loc, cp,
-              "`%s < 0` bails out before size = %s; converted with a signed conversion" % (v, v) if tests and signed else
+        ck.ob("C03-R6", "Chunk::parse/size-sign-checked", guarded and signed, a.loc, g,
+              "`%s < 0` bails out before size = %s; converted with a signed conversion" % (v, v) if guarded and signed else
               "the parsed chunk size `%s` is stored without a sign check (converted by %s): a size line like -5 or 8000000000000000 becomes a "
               "negative size and then a huge unsigned count" % (v, d_[0].get("icall") if d_ else "?"))
 
